@@ -423,6 +423,58 @@ func stressScenarios(rng *rand.Rand) map[string]func() int {
 			bp.Render(img, scene)
 			return 0
 		},
+		// one renderer of each kind used by several goroutines at once (each with its own image), and
+		// two path tracers of different depth in flight together; the ray caster has no randomness
+		// and must paint the same picture as alone
+		"render-shared": func() int {
+			obj := &render3d.ColliderObject{Collider: &model3d.Sphere{Radius: 1},
+				Material: &render3d.LambertMaterial{DiffuseColor: render3d.NewColor(0.5), EmissionColor: render3d.NewColor(0.2)}}
+			light := &render3d.ColliderObject{Collider: &model3d.Sphere{Center: model3d.XYZ(0, 0, 4), Radius: 0.5},
+				Material: &render3d.LambertMaterial{EmissionColor: render3d.NewColor(10)}}
+			scene := render3d.JoinedObject{obj, light}
+			cam := render3d.NewCameraAt(model3d.XYZ(0, -4, 0), model3d.Coord3D{}, math.Pi/3)
+			rt := &render3d.RecursiveRayTracer{Camera: cam, MaxDepth: 3, NumSamples: 3}
+			rc := &render3d.RayCaster{Camera: cam, Lights: []*render3d.PointLight{{Origin: model3d.XYZ(0, 0, 4), Color: render3d.NewColor(1)}}}
+			area := render3d.NewSphereAreaLight(&model3d.Sphere{Center: model3d.XYZ(0, 0, 4), Radius: 0.5}, render3d.NewColor(10))
+			bp1 := &render3d.BidirPathTracer{Camera: cam, Light: area, MaxDepth: 2, MinDepth: 2, NumSamples: 2}
+			bp2 := &render3d.BidirPathTracer{Camera: cam, Light: area, MaxDepth: 5, MinDepth: 2, NumSamples: 2}
+			alone := render3d.NewImage(20, 14)
+			rc.Render(alone, scene)
+			bad := 0
+			var mu sync.Mutex
+			parallelDo(8, func(i int) {
+				img := render3d.NewImage(20, 14)
+				switch i % 4 {
+				case 0:
+					rt.Render(img, scene)
+					rt.RayVariance(scene, 20, 14, 3)
+				case 1:
+					rc.Render(img, scene)
+					for k := range img.Data {
+						if img.Data[k] != alone.Data[k] {
+							mu.Lock()
+							bad++
+							mu.Unlock()
+							break
+						}
+					}
+				case 2:
+					bp1.Render(img, scene)
+				case 3:
+					bp2.Render(img, scene)
+					bp2.RayVariance(scene, 20, 14, 2)
+				}
+				for _, c := range img.Data {
+					if math.IsNaN(c.X+c.Y+c.Z) || c.X < 0 || c.Y < 0 || c.Z < 0 {
+						mu.Lock()
+						bad++
+						mu.Unlock()
+						break
+					}
+				}
+			})
+			return bad
+		},
 		// the first evaluation of an argument is still running when a second goroutine asks for the
 		// same argument (forced: the wrapped function waits for the second caller to return)
 		"cached-scalar-func-overlap": func() int {
